@@ -43,11 +43,21 @@ class RecArr:
         for e in np.atleast_1d(self.idx[key]).ravel():
             self.log.append((kind, self.name, int(e)))
 
+    def __iter__(self):
+        for k in range(len(self.a)):
+            yield self[k]
+
     def __getitem__(self, key):
         if self.a.dtype.names and isinstance(key, (int, np.integer)):
             return RecVoid(self, key)
+        r = self.a[key]
+        if isinstance(r, np.ndarray) and r.ndim >= 1 and not self.a.dtype.names:
+            # a view (row, slice): accesses through it are accesses to the same elements
+            v = RecArr.__new__(RecArr)
+            v.a, v.name, v.log, v.idx = r, self.name, self.log, self.idx[key]
+            return v
         self._log("R", key)
-        return self.a[key]
+        return r
 
     def __setitem__(self, key, v):
         self._log("W", key)
@@ -79,9 +89,12 @@ class NPproxy:
         return np.sum(np.asarray(x), *a, **k)
 
 
-def one_iteration(py, args, names, it):
+def one_iteration(py, args, names, it, num_threads=None):
     log = []
     g = dict(py.__globals__)
+    if num_threads:
+        # the size of the thread pool is whatever the deployment has: the solver's value
+        g["get_num_threads"] = lambda: int(num_threads)
     g["prange"] = lambda *a: [it] if ((a[0] if len(a) > 1 else 0) <= it < (a[1] if len(a) > 1 else a[0])) else []
     g["np"] = NPproxy(log)
     f = pytypes.FunctionType(py.__code__, g, py.__name__, py.__defaults__, py.__closure__)
@@ -106,8 +119,8 @@ def main(p):
                         a.ravel()[int(k)] = v
                     except (OverflowError, ValueError):
                         pass
-    la = one_iteration(py, args, names, p["it_a"])
-    lb = one_iteration(py, args, names, p["it_b"])
+    la = one_iteration(py, args, names, p["it_a"], p.get("num_threads"))
+    lb = one_iteration(py, args, names, p["it_b"], p.get("num_threads"))
     wa = {(n, e) for k, n, e in la if k == "W"}
     wb = {(n, e) for k, n, e in lb if k == "W"}
     ta = {(n, e) for k, n, e in la}
